@@ -129,6 +129,17 @@ func runC16(c *Ctx) {
 			faults = []fault{{Kind: fCorrupt, Nth: 1 + srng.Intn(4), K: 0, Repeat: 100000}}
 		}
 		immediateOnly := false
+		hashingPhase := 0
+		if s%6 == 0 && s > 0 || (c.N(1, 0) == 1 && s == 0) {
+			// many small files: a scan's hashing phase hands dozens of multi-file
+			// batches to a small worker pool; half of the stops of this scenario arrive
+			// while that is going on (every opened file is a boundary action)
+			conf.Threads = 1 + srng.Intn(2)
+			nfiles = 60 + srng.Intn(60)
+			files = genFiles(srng, nfiles, conf.PayloadSize/6+2)
+			faults = nil
+			hashingPhase = nfiles + 4
+		}
 		if s%6 == 4 {
 			// outage: from some request on the receiver refuses every data request, so
 			// the senders loop on failures and the channels in front of them stay full
@@ -175,6 +186,10 @@ func runC16(c *Ctx) {
 				if immediateOnly {
 					sc.Graceful = false
 					sc.StopAt = 1 + rng.Intn(refActs+5)
+				}
+				if hashingPhase > 0 && k >= 4 && k%2 == 0 {
+					sc.StopAt = 2 + rng.Intn(hashingPhase)
+					sc.Graceful = rng.Intn(4) == 0
 				}
 				dir := filepath.Join(c.Work, fmt.Sprintf("c16-%d", idx))
 				c.Guard(idx, sc, func() {
